@@ -20,15 +20,15 @@ From Coq Require Import List NArith ZArith Bool.
 From ApiFu Require Import Base.Sexp Fut.Plan Fut.Future.
 Import ListNotations.
 
-Record flags := { fwd_err : bool; after_ptr : bool; nn_fwd : bool;
-                  prefill : N -> bool   (* the resolver of the promise with this static tag sends its
-                                           result before it returns the channel (no idle round needed) *) }.
-Definition fixed_flags : flags :=
-  {| fwd_err := true; after_ptr := true; nn_fwd := true; prefill := fun _ => false |}.
-Definition pinned_flags : flags :=
-  {| fwd_err := false; after_ptr := false; nn_fwd := false; prefill := fun _ => false |}.
-Definition with_prefill (fl : flags) (pre : N -> bool) : flags :=
-  {| fwd_err := fwd_err fl; after_ptr := after_ptr fl; nn_fwd := nn_fwd fl; prefill := pre |}.
+Record flags := { fwd_err : bool; after_ptr : bool; nn_fwd : bool }.
+Definition fixed_flags : flags := {| fwd_err := true; after_ptr := true; nn_fwd := true |}.
+Definition pinned_flags : flags := {| fwd_err := false; after_ptr := false; nn_fwd := false |}.
+
+(** a promise whose static tag is at least [pre_base] is *prefilled*: its resolver sends the result
+    into the (buffered) channel before it returns the channel, so no idle round is needed for it *)
+Definition pre_base : N := 4294967296.
+Definition tag_prefilled (t : N) : bool := N.leb pre_base t.
+Definition tag_label (t : N) : N := if tag_prefilled t then N.sub t pre_base else t.
 
 (** ** State *)
 Record promise := { p_id : nat; p_tag : N; p_path : rpath; p_ok : bool; p_done : bool }.
@@ -86,20 +86,13 @@ Definition new_promise (tag : N) (p : rpath) (ok : bool) (s : st) : nat * st :=
           s_chans := s_chans s; s_maps := s_maps s; s_errs := s_errs s; s_evs := s_evs s;
           s_round := s_round s |}).
 
-(** the resolver sent the result into the (buffered) channel before returning it *)
-Definition deliver (id : nat) (s : st) : st :=
-  match nth_error (s_proms s) id with
-  | None => s
-  | Some pr =>
-      {| s_proms := map (fun q => if Nat.eqb (p_id q) id
-                                  then {| p_id := p_id q; p_tag := p_tag q; p_path := p_path q;
-                                          p_ok := p_ok q; p_done := true |}
-                                  else q) (s_proms s);
-         s_chans := s_chans s ++ [(id, p_ok pr)];
-         s_maps := s_maps s; s_errs := s_errs s;
-         s_evs := s_evs s ++ [EFulfil (slice (p_path pr))];
-         s_round := s_round s |}
-  end.
+(** the resolver made a channel, sent the result into it and returned it *)
+Definition new_promise_pre (tag : N) (p : rpath) (ok : bool) (s : st) : nat * st :=
+  let id := length (s_proms s) in
+  (id, {| s_proms := s_proms s ++ [{| p_id := id; p_tag := tag; p_path := p; p_ok := ok; p_done := true |}];
+          s_chans := s_chans s ++ [(id, ok)]; s_maps := s_maps s; s_errs := s_errs s;
+          s_evs := s_evs s ++ [EFulfil (slice p)];
+          s_round := s_round s |}).
 
 (** the [select { case r := <-f: … default: … }] of the promise adapter *)
 Fixpoint chan_take (id : nat) (c : list (nat * bool)) : option (bool * list (nat * bool)) :=
@@ -266,8 +259,8 @@ Section Exec.
             | Some v => nn_wrap nn p (complete_inner v p s1)
             end
         | Some t =>
-            let '(id, s2) := new_promise t p (match res with Some _ => true | None => false end) s1 in
-            let s2 := if prefill fl t then deliver id s2 else s2 in
+            let '(id, s2) := (if tag_prefilled t then new_promise_pre else new_promise)
+                               t p (match res with Some _ => true | None => false end) s1 in
             Then (New (promise_poll id))
                  (fun r s =>
                     match r with
@@ -435,7 +428,7 @@ End Exec.
 
 (** the scheduler the harness implements: every promise has a rank (by its static tag); an idle
     round fulfils the outstanding promises of minimal rank *)
-Definition rank_of (ranks : list nat) (t : N) : nat := nth (N.to_nat t) ranks 0.
+Definition rank_of (ranks : list nat) (t : N) : nat := nth (N.to_nat (tag_label t)) ranks 0.
 Definition sigma_ranks (ranks : list nat) : sched :=
   fun _ out =>
     match out with
